@@ -248,6 +248,14 @@ def C18(ctx):
     std_check(ctx, [dict(harness="c18", aliases=["c18_snapshots"], cases=(250, 9000), max_ops=40, worker_env=lambda w: {"VERIF_C18_OWNED": ",".join(owned[w])})])
 
 
+def C17(ctx):
+    # two harnesses built against the ThreadSanitizer flavour of hwloc and of the engine; every case is a forked child, the first TSan report ends it
+    std_check_parallel(ctx, [
+        dict(harness="c17a", aliases=["c17_readers"], tag="c17-readers", cases=(260, 6000), workers=(10, 10), max_ops=40),
+        dict(harness="c17b", aliases=["c17_independent"], tag="c17-independent", cases=(70, 2500), workers=(6, 6), max_ops=24),
+    ])
+
+
 def C07(ctx):
     std_check(ctx, [dict(harness="c07", aliases=["c07_synthetic"], cases=(350, 14000), max_ops=1)])
     seeds = [b"pack:2 [numa] l3:2 core:2 pu:2", b"numa:3 pack:2 core:2 pu:1", b"2 3 4 5 6", b"pack:2 core:2 pu:2(indexes=core:pu)", b"Package:1 Group:4 [NUMANode(memory=1GB indexes=1,0,3,2)] [numa] core:4 pu:2(indexes=2*4:4*2)",
@@ -276,4 +284,4 @@ def C10(ctx):
     ctx.extra["extra_assumptions"] = ["the live round trips (1 case in 8) depend on this sandbox: its kernel, cgroup configuration, allowed CPUs; the recording-mode part is machine independent"]
 
 
-PROPS = {"C01": C01, "C18": C18, "C10": C10, "C19": C19, "C09": C09, "C11": C11, "C07": C07, "C06": C06, "C05": C05, "C16": C16, "C14": C14, "C13": C13, "C15": C15, "C08": C08, "C12": C12, "C02": C02, "C03": C03, "C04": C04}
+PROPS = {"C01": C01, "C18": C18, "C17": C17, "C10": C10, "C19": C19, "C09": C09, "C11": C11, "C07": C07, "C06": C06, "C05": C05, "C16": C16, "C14": C14, "C13": C13, "C15": C15, "C08": C08, "C12": C12, "C02": C02, "C03": C03, "C04": C04}
